@@ -49,9 +49,24 @@ hypothetical rule (repair A `copyPerFit`, repaired `nu`), kept because the count
             harmless for A by src_gs_/src_eg_refines_spec_any_moment
        hyp: gs_params_unchanged, eg_params_unchanged (repair A), to_params_unchanged
   D  prediction does not alter fitted state; same seed repeats the answer
-       src: src_predict_pure, src_predict_methods_present (lifted), src_predict_does_not_alter_state (every history);
+       src: src_predict_pure, src_predict_methods_present (lifted, inside each estimator class);
+            ACROSS the helper objects (lifters/lifecycle_helpers.py): src_helper_calls_followed (every method ThresholdOptimizer
+            calls on `interpolated_thresholder_` and the adversarial estimators call on `backendEngine_` is found in
+            InterpolatedThresholder / BackendEngine + PytorchEngine + TensorflowEngine), src_helper_predict_pure (that closure
+            writes no attribute of the helper object or of the estimator behind `self.base`, in place or through aliases, and
+            calls no mutating method), src_helper_mode_flag_scratch (the torch train/eval mode flag, which `evaluate` DOES write,
+            is selected before every forward pass in evaluate and in train_step, so it is scratch state — decision documented
+            in Model/LifecycleSrc.lean), src_predict_pure_flags (`predictPureSrc c` for all 7 classes);
+            the `predict` step of EVERY `…src` machine runs through that flag (`guardPredict`, src_*_guard), so
+            src_predict_does_not_alter_state (every history) and every src_*_refines_spec / src_*_history_free DEPEND on the lifted
+            lists (guard_off_breaks_spec: with the flag off they are false).  F5g (known finding, visible):
+            src_cr_transform_resets_sklearn_attrs — CorrelationRemover.transform lets sklearn's validate_data(reset=True) rewrite
+            n_features_in_ / feature_names_in_.
             *_predict_pure (every state, every rule).  The model's predict result does not depend on the seed at all,
             so "same seed repeats" is the second conjunct of *_predict_pure; the numbers are compared by the harness.
+       STILL MODELLED, NOT LIFTED: the `.retSelf` result of the EG / TO / CR steps (fitReturns is lifted and proved `["self"]`,
+            but only gsStep's rule flag and advStepSrc compute their result from it); what a user's base estimator / torch
+            module does inside its own predict / forward.
   E  pickle round trip (TO, EG, GS, CR) predicts like the original
        src_pickle_restores_state, *_pickle_roundtrip — BY DEFINITION of the model (pickle = identity on the modelled
        state); nothing about pickling is lifted from the source.  The content of this clause is checked by the
